@@ -633,8 +633,24 @@ def conv_cases(product, key, poct, ch):
     for i in sorted(base):
         if base[i][1] is not None:
             cases.extend(single_mods(i, base[i][1]))
+            cases.extend(reshaped(i, base[i][1]))
         cases.append([[i, 'timeout']])
     return base, (o1, o2), n_auth, cases
+
+
+def reshaped(i, rsp):
+    """Well-formed Read responses with another number of blocks than was
+    asked for: k = 0..n-1 blocks (data cut accordingly, length octet and
+    block count consistent) and n+1 blocks."""
+    rsp = bytes(rsp)
+    if len(rsp) < 13 or rsp[1] != 0x07 or rsp[10] != 0 or \
+            len(rsp) != 13 + 16 * rsp[12]:
+        return
+    n = rsp[12]
+    for k in list(range(0, n)) + [n + 1]:
+        data = (rsp[13:] + bytes(16))[:16 * k]
+        new = bytes([13 + 16 * k]) + rsp[1:12] + bytes([k]) + data
+        yield [[i, 'replace', new.hex()]]
 
 
 def work_conv(job, acc):
